@@ -12,6 +12,7 @@
 // See the License for the specific language governing permissions and
 // limitations under the License.
 
+#[cfg(not(swimos_verif_shuttle))]
 use std::{
     cell::Cell,
     pin::Pin,
@@ -19,6 +20,20 @@ use std::{
         atomic::{AtomicU8, Ordering},
         Arc,
     },
+    task::{Context, Poll},
+};
+
+// Verification hook: under `--cfg swimos_verif_shuttle` the atomics come from the shuttle
+// scheduler so that every access is a scheduling point. Never set in product builds.
+#[cfg(swimos_verif_shuttle)]
+use shuttle::sync::{
+    atomic::{AtomicU8, Ordering},
+    Arc,
+};
+#[cfg(swimos_verif_shuttle)]
+use std::{
+    cell::Cell,
+    pin::Pin,
     task::{Context, Poll},
 };
 
